@@ -14,6 +14,8 @@ PID = "C14"
 SHARDS = {"quick": 6, "thorough": 16}
 SHARD_TIMEOUT = {"quick": 600, "thorough": 1700}
 N_RANDOM = {"quick": 900, "thorough": 24000}
+# structured-index / derived-object family (c14_gen.derived_spec)
+N_DERIVED = {"quick": 900, "thorough": 18000}
 
 
 def new_run():
@@ -23,7 +25,16 @@ def new_run():
         "deterministic catalogue (every column class x {plain, some nulls, "
         "all null, empty} as frame and as series; every index shape x index "
         "class; frames without columns) followed by seeded random frames of "
-        "1-4 columns x 0-5 rows with random index shapes; every case runs the "
+        "1-4 columns x 0-5 rows with random index shapes, followed by the "
+        "structured-index / derived-object family (catalogue + seeded random, "
+        "0-8 rows): explicit RangeIndex (any start, step > 1, negative step, "
+        "unaligned stop, empty, named incl. falsy names), regular "
+        "DatetimeIndex / TimedeltaIndex with a positive or negative freq "
+        "(also as a MultiIndex level), and objects that are 1-3 operations "
+        "away from a built one (iloc slices incl. negative steps, positional "
+        "take as permutation / sorted subset / with repeats, sort_index, "
+        "sort_values, reset_index, one column put back into a frame); every "
+        "case runs the "
         "real infer_schema, validate, to_yaml/from_yaml, validate; "
         "non-trivial = infer_schema returned a schema and validate was "
         "executed on the same object; distinct = canonical hash of the frame "
@@ -44,8 +55,16 @@ def new_run():
          "SeriesSchema has no YAML writer: the serialisation clause is "
          "evaluated for DataFrames only",
          "a failing frame is re-run one component at a time (each column "
-         "alone, the index alone) to attribute the failure; the mechanism key "
-         "is a function of stage + data-derived flags of that component"])
+         "alone, the index alone; for a derived object the same operations "
+         "are applied to every part and a column alone gets a fresh default "
+         "index) to attribute the failure; the mechanism key "
+         "is a function of stage + data-derived flags of that component",
+         "a SeriesSchema has no index component: for a Series the structured "
+         "/ derived index is generated and validated with the object but "
+         "there is no inferred index bound to judge (counted as undecided:"
+         "series-index-is-not-part-of-a-SeriesSchema)",
+         "derive operations that pandas itself refuses for the data at hand "
+         "(sorting unorderable values) are skipped, not judged"])
 
 
 # ---------------------------------------------------------------------------
@@ -286,21 +305,31 @@ def _parts(spec):
     benign = {"name": "a", "col": {"cls": "int64", "dtype": "int64",
                                    "null": None,
                                    "values": list(range(1, n + 1))}}
+    # a derived object: the same operations on every part; a column alone
+    # gets a fresh default index afterwards (so that a failure of the derived
+    # index is not attributed to the column)
+    ops = [["column_to_frame", 0] if o[0] == "column_to_frame" else
+           ["sort_values", 0, o[2]] if o[0] == "sort_values" else o
+           for o in (spec.get("derive") or [])]
+    dcol = {"derive": ops + [["reset_index"]]} if ops else {}
+    dix = {"derive": ops} if ops else {}
     for i, c in enumerate(spec["columns"]):
         out.append((("column", i),
-                    {"kind": spec["kind"], "n": n, "index": None,
-                     "columns": [c]}))
-    if spec["index"] is not None:
+                    dict({"kind": spec["kind"], "n": n, "index": None,
+                          "columns": [c]}, **dcol)))
+    if spec["index"] is not None or ops:
         out.append((("index", None),
-                    {"kind": spec["kind"], "n": n, "index": spec["index"],
-                     "columns": [dict(benign, name="s" if spec["kind"] ==
-                                      "series" else "a")]}))
-        for j, lv in enumerate(spec["index"]["levels"]):
-            if len(spec["index"]["levels"]) > 1:
+                    dict({"kind": spec["kind"], "n": n,
+                          "index": spec["index"],
+                          "columns": [dict(benign, name="s" if spec["kind"]
+                                           == "series" else "a")]}, **dix)))
+        levels = spec["index"]["levels"] if spec["index"] else []
+        for j, lv in enumerate(levels):
+            if len(levels) > 1:
                 out.append((("index-level", j),
-                            {"kind": spec["kind"], "n": n,
-                             "index": {"levels": [lv]},
-                             "columns": [dict(benign)]}))
+                            dict({"kind": spec["kind"], "n": n,
+                                  "index": {"levels": [lv]},
+                                  "columns": [dict(benign)]}, **dix)))
     return out
 
 
@@ -310,12 +339,15 @@ def _flags_of(where, spec, obj):
         s = obj if isinstance(obj, pd.Series) else obj.iloc[:, 0]
         return G.describe(s)
     if kind == "index-level":
-        return G.describe(obj.index)
+        return sorted(set(G.describe(obj.index)) |
+                      set(G.describe_index(obj.index)))
     if kind == "index":
         fl = set()
         names = list(obj.index.names)
         for j in range(obj.index.nlevels):
             fl.update(G.describe(obj.index.get_level_values(j)))
+        if obj.index.nlevels == 1:
+            fl.update(G.describe_index(obj.index))
         fl.add("nlevels:%d" % obj.index.nlevels)
         if obj.index.nlevels > 1:
             named = [n for n in names if n is not None]
@@ -346,7 +378,7 @@ def attribute(spec, obj, p):
     for stage, detail in p.fails:
         hit = False
         if len(spec["columns"]) + (spec["index"] is not None) > 1 or \
-                (spec["index"] is not None):
+                (spec["index"] is not None) or spec.get("derive"):
             if parts is None:
                 parts = []
                 for where, sub in _parts(spec):
@@ -370,7 +402,8 @@ def attribute(spec, obj, p):
         if not hit:
             if not spec["columns"]:
                 out.append((stage, detail, "frame", ["no-columns"]))
-            elif len(spec["columns"]) == 1 and spec["index"] is None:
+            elif len(spec["columns"]) == 1 and spec["index"] is None \
+                    and not spec.get("derive"):
                 out.append((stage, detail, "column",
                             _flags_of(("column", 0), spec, obj)))
             else:
@@ -422,6 +455,24 @@ def one_case(run, label, spec, collect=None):
                   (":unnamed" if any(n is None for n in names) else ""))
         for l in lv:
             run.count("index-class:" + l["col"]["cls"])
+    for op in spec.get("derive") or []:
+        run.count("derive:" + op[0] + (
+            ":step<0" if op[0] == "slice" and (op[3] or 1) < 0 else ""))
+    if isinstance(obj, pd.DataFrame) and "validate" in p.monitors:
+        # structure of the index actually handed to infer_schema (only a
+        # DataFrameSchema has an index component; SeriesSchema has none)
+        for j in range(obj.index.nlevels):
+            lvl = obj.index if obj.index.nlevels == 1 else \
+                obj.index.get_level_values(j)
+            for fl in G.describe_index(lvl):
+                if not fl.startswith("index-type:"):
+                    run.count("index-struct:" + fl)
+        run.count("index-type:" + type(obj.index).__name__)
+        run.count("rows:" + ("0" if not len(obj) else "1" if len(obj) == 1
+                             else "2+"))
+    elif isinstance(obj, pd.Series) and (
+            spec["index"] is not None or spec.get("derive")):
+        run.count("undecided:series-index-is-not-part-of-a-SeriesSchema")
     run.count("held" if not p.fails else "failed")
     run.case(key, "validate" in p.monitors, sample={
         "label": label, "spec": spec,
@@ -439,14 +490,17 @@ def one_case(run, label, spec, collect=None):
 
 
 def run(run, ctx):
-    cat = G.catalogue()
-    n = len(cat) + N_RANDOM[ctx.tier]
+    cat = G.catalogue() + G.derived_catalogue()
+    n_rand = len(cat) + N_RANDOM[ctx.tier]
+    n = n_rand + N_DERIVED[ctx.tier]
     import pandera.io  # noqa: F401
     for i in ctx.cases(n):
         if i < len(cat):
             label, spec = cat[i]
-        else:
+        elif i < n_rand:
             label, spec = "random", G.random_spec(ctx.rng(PID, i))
+        else:
+            label, spec = "derived", G.derived_spec(ctx.rng(PID, i))
         one_case(run, label, spec)
 
 
